@@ -114,6 +114,7 @@ func main() {
 	x := mon.NewCtx(*prop, *tier, *seed, *out, *replays)
 	x.LoadKnown(*known)
 	w(x)
+	props.RunDefaultRootTwins(x)
 	rc := x.Finish(*evidence)
 	pprof.StopCPUProfile()
 	os.Exit(rc)
